@@ -382,7 +382,7 @@ func unEscape(r []rune) string {
 				i += 5
 				continue
 			case 'U':
-				rc, err := strconv.ParseInt(string(r[i+1:i+9]), 16, 32)
+				rc, err := strconv.ParseInt(string(r[i+1:i+9]), 16, 64)
 				if err != nil {
 					panic(fmt.Errorf("internal parser error: %w", err))
 				}
